@@ -51,8 +51,10 @@ pub fn run(tier: Tier) -> i32 {
     let pats2 = patterns(2);
     let pats3 = patterns(3);
     // configurations: (pattern menu, max rules)
+    // 1-3 columns over the three atoms {*, a, b}
+    let pats3small: Vec<Vec<&str>> = pats3.iter().filter(|p| p.iter().all(|a| *a != "(a|b)")).cloned().collect();
     let plans: Vec<(&Vec<Vec<&str>>, usize)> = match tier {
-        Tier::Quick => vec![(&pats2, 3)],
+        Tier::Quick => vec![(&pats2, 3), (&pats3small, 3)],
         Tier::Thorough => vec![(&pats2, 4), (&pats3, 3)],
     };
     let mut st = Stats::default();
